@@ -471,6 +471,15 @@ def run_shard(ctx, shard):
                 for o in (1, odd):
                     a = pow(w, 2**j, ref.r) * o % ref.r
                     emit(ctx, {"sub": "unop", "cfg": cfg, "field": "fr", "op": "sqrt_value", "a": hx(a)}, True, "fr-sqrt-2adic")
+            # ... and every NUMBER OF ROUNDS of the Tonelli-Shanks loop: each round clears the lowest set bit of the discrete logarithm of
+            # a^T to the base w, so a = w^m with -m = 2 (2^k - 1) mod 2^32 (k low bits set; T = -1 mod 2^32) needs exactly k rounds, k = 1..31
+            # (k = 31 is the worst case, reached by the inverse of the square of the 2^32-th root of unity)
+            assert t % 2**32 == 2**32 - 1
+            for k in range(1, 32):
+                mexp = (-2 * (2**k - 1)) % 2**32
+                for o in (1, odd):
+                    a = pow(w, mexp, ref.r) * o % ref.r
+                    emit(ctx, {"sub": "unop", "cfg": cfg, "field": "fr", "op": "sqrt_value", "a": hx(a)}, True, "fr-sqrt-rounds")
     elif sub == "cmp":
         A = operands(field, seed, tier)
         A = A[:: max(1, len(A) // (60 if tier == "quick" else 150))]
